@@ -316,10 +316,16 @@ func (m *Manager) newStream(ctx context.Context, sid uint64, kind, rpc string) (
 	}
 
 	stream := drpcstream.NewWithOptions(ctx, sid, m.wr, opts)
+
+	// publish the stream before handing it to manageStreams: with SoftCancel
+	// an already canceled context makes manageStream release the semaphore at
+	// once, and the next NewClientStream must then see this stream as the
+	// previous one, otherwise it computes the same stream id again.
+	m.sbuf.Set(stream)
+
 	select {
 	case m.streams <- streamInfo{ctx: ctx, stream: stream}:
 		drpcdebug.Point("manager.newStream.beforeSet")
-		m.sbuf.Set(stream)
 		m.log("STREAM", stream.String)
 		return stream, nil
 
